@@ -13,11 +13,16 @@ Structural clauses decided (each a necessary condition of the property):
     belongs to and the value flows into a branch or into the row geometry.
  R5 PNG row filters: the per-row filter-type dispatch has a distinct arm for 0..4 and the
     routines using a left neighbour receive the computed bytes-per-pixel (not a constant).
+ R6 LZW code width cap: the code width never exceeds 12 bits (ISO 32000-1 §7.4.4.2): every increment of the width variable in
+    `decode_lzw_with_limit` is dominated by an ordered comparison of that variable with 12 (`< 12`, `>= 12`, `<= 11`, ..). A
+    width that can reach 13 desynchronises the decoder from a conforming encoder once the table is full (≈ 4 KB of
+    incompressible data).
 Not decided: equality of decoded bytes with a reference decoder.
 """
 from .. import lib as L
 from .. import tables as T
 from .. import flow as FL
+from .. import cfg as CF
 
 EXPLANATION = __doc__
 
@@ -289,6 +294,7 @@ def r5(ctx):
 
 
 def run(ctx):
+    r6_lzw_width_cap(ctx)
     for r in (r1, r2, r3, r4, r5):
         try:
             r(ctx)
@@ -297,3 +303,47 @@ def run(ctx):
             if isinstance(e, AnchorMissing):
                 continue
             raise
+
+
+def r6_lzw_width_cap(ctx):
+    fn = ctx.fn(F + "decode_lzw_with_limit", "R6")
+    g = CF.cfg(fn)
+    names = fn.local_names()
+    widths = [l for l, n in names.items() if "code_size" in n or "code_width" in n or "code_len" in n or n == "bits"]
+    incs = []
+    for b, blk in enumerate(fn.blocks):
+        for st in blk[0]:
+            rv = st[2]
+            if rv[0] == "bin" and rv[1].startswith("Add") and FL.op_const(rv[3]) == 1 and FL.op_place(rv[2]) and FL.op_place(rv[2])[0] in widths:
+                incs.append((b, FL.op_place(rv[2])[0]))
+    if not ctx.floor("R6", "increments of the LZW code width", len(incs), 1):
+        return
+    for n, (b, w) in enumerate(incs):
+        key = "decode_lzw_with_limit:width-increment#%d:capped-at-12" % (n + 1)
+        ok = False
+        for sb in g.dominators(b):
+            for st in fn.blocks[sb][0]:
+                rv = st[2]
+                if rv[0] == "bin" and rv[1] in ("Lt", "Le", "Gt", "Ge"):
+                    for x, y in ((rv[2], rv[3]), (rv[3], rv[2])):
+                        px = FL.op_place(x)
+                        k = FL.op_const(y)
+                        if px is None or px[1] or not isinstance(k, int):
+                            continue
+                        # x is (a copy of) the width variable
+                        root = px[0]
+                        fl = FL.flow(fn)
+                        for d in fl.defs.get(px[0], ()):
+                            if d[0] == "stmt" and fn.blocks[d[1]][0][d[2]][2][0] == "use":
+                                p2 = FL.op_place(fn.blocks[d[1]][0][d[2]][2][1])
+                                if p2 is not None and not p2[1]:
+                                    root = p2[0]
+                        if root == w and k in (11, 12):
+                            ok = True
+        if ok:
+            ctx.ok("R6", key, "the increment is dominated by a comparison of the width with 12", fn.where(b))
+        else:
+            ctx.violation("R6", key, "the LZW code width is incremented without a dominating comparison with 12: once the table holds "
+                          "4095/4096 entries the decoder widens its codes to 13 bits while a conforming encoder stays at 12 and emits "
+                          "its Clear code at 12 bits, so every stream with more than about 4 KB of poorly compressible data fails to "
+                          "decode", fn.where(b))
